@@ -60,14 +60,31 @@ def repaired : Variant := ⟨6, .invalidData⟩
 /-- The variant the extractor read from the current source text. -/
 def sourceVariant : Variant := ⟨srcMinLen, srcMinLenKind⟩
 
+/-- What `BmpMsg::from_octets` (routecore, not modelled) does with a complete frame. `crash` = the
+    parser itself panics; the theorems that say "never panics" carry the explicit hypothesis that
+    it does not, the engine reports what the real parser does for every frame. -/
+inductive Verdict
+  | accept | reject | crash
+  deriving DecidableEq, Repr
+
+/-- Where a panic comes from. -/
+inductive Site
+  | slice     -- `&mut msg_buf[5..]` on a buffer shorter than 5 (io.rs:79)
+  | parser    -- inside `BmpMsg::from_octets`
+  deriving DecidableEq, Repr
+
 /-- Outcome of one `bmp_read`. -/
 inductive Outcome
   | frame (bytes : List Nat)   -- `Ok((rx, msg_buf, 0))`
   | ioErr (k : Kind)           -- `Err((rx, err))` from `read_exact` (or from the length guard)
   | parseErr                   -- `Err((rx, io::Error::new(Other, parser message)))`
-  | panic                      -- `&mut msg_buf[5..]` on a buffer shorter than 5
+  | panic (site : Site)
   | terminated                 -- `BmpStream::next` returned `Ok((None, None, 0))`
   deriving DecidableEq, Repr
+
+def Outcome.isPanic : Outcome → Bool
+  | .panic _ => true
+  | _ => false
 
 def be32 (a b c d : Nat) : Nat := ((a * 256 + b) * 256 + c) * 256 + d
 
@@ -75,8 +92,8 @@ def be32 (a b c d : Nat) : Nat := ((a * 256 + b) * 256 + c) * 256 + d
 def declaredLen (hdr : List Nat) : Nat :=
   be32 (hdr.getD lenFrom 0) (hdr.getD (lenFrom + 1) 0) (hdr.getD (lenFrom + 2) 0) (hdr.getD (lenFrom + 3) 0)
 
-/-- `bmp_read` (tracing off). `valid` is `BmpMsg::from_octets(&msg_buf).is_ok()`. -/
-def readFrame (v : Variant) (valid : List Nat → Bool) (s : Src) : Outcome × Src :=
+/-- `bmp_read` (tracing off). `valid` is `BmpMsg::from_octets(&msg_buf)`. -/
+def readFrame (v : Variant) (valid : List Nat → Verdict) (s : Src) : Outcome × Src :=
   match readExact hdrSize s [] with
   | (.err k, s1) => (.ioErr k, s1)
   | (.terminated, s1) => (.terminated, s1)
@@ -84,15 +101,16 @@ def readFrame (v : Variant) (valid : List Nat → Bool) (s : Src) : Outcome × S
     let len := declaredLen hdr
     match decide (len < v.minLen), decide (len < sliceStart) with
     | true, _ => (.ioErr v.minLenKind, s1)
-    | false, true => (.panic, s1)              -- resize(len) shrinks, `[5..]` is out of range
+    | false, true => (.panic .slice, s1)       -- resize(len) shrinks, `[5..]` is out of range
     | false, false =>
       match readExact (len - sliceStart) s1 [] with
       | (.err k, s2) => (.ioErr k, s2)
       | (.terminated, s2) => (.terminated, s2)
       | (.ok body, s2) =>
         match valid (hdr ++ body) with
-        | true => (.frame (hdr ++ body), s2)
-        | false => (.parseErr, s2)
+        | .accept => (.frame (hdr ++ body), s2)
+        | .reject => (.parseErr, s2)
+        | .crash => (.panic .parser, s2)
 
 /-- What the session's message handler (state machine + gate) does with one accepted frame:
     new state, updates sent through the gate, and whether processing aborted the session
@@ -105,7 +123,7 @@ inductive Ev (Out : Type)
   | msg (outs : List Out)      -- a frame was accepted and processed
   | ioErr (k : Kind)           -- `receive_io_error` counted an error of this kind
   | parseErr                   -- `receive_io_error` counted a parser rejection
-  | panic
+  | panic (site : Site)
   deriving Repr
 
 /-- Why the loop was left. -/
@@ -126,13 +144,13 @@ structure LoopRes (σ Out : Type) where
 
 /-- `loop { match stream.next().await { … } }` of `read_from_router`. `i` counts completely read
     frames (accepted or rejected by the parser). -/
-def loop {σ Out : Type} (v : Variant) (h : Handler σ Out) (valid : Nat → List Nat → Bool) :
+def loop {σ Out : Type} (v : Variant) (h : Handler σ Out) (valid : Nat → List Nat → Verdict) :
     Nat → Src → σ → Nat → LoopRes σ Out
   | 0, s, st, i => ⟨[], st, .fuel, s, i⟩
   | fuel + 1, s, st, i =>
     match readFrame v (valid i) s with
     | (.terminated, s') => ⟨[], st, .terminated, s', i⟩
-    | (.panic, s') => ⟨[.panic], st, .panicked, s', i⟩
+    | (.panic site, s') => ⟨[.panic site], st, .panicked, s', i⟩
     | (.ioErr k, s') =>
       match isFatal k with
       | true => ⟨[.ioErr k], st, .fatal k, s', i⟩
@@ -148,7 +166,7 @@ def loop {σ Out : Type} (v : Variant) (h : Handler σ Out) (valid : Nat → Lis
         let r := loop v h valid fuel s' st' (i + 1); { r with evs := .msg outs :: r.evs }
 
 /-- Enough fuel for every script (theorem `loop_fuel`): each iteration consumes an item or ends. -/
-def runLoop {σ Out : Type} (v : Variant) (h : Handler σ Out) (valid : Nat → List Nat → Bool)
+def runLoop {σ Out : Type} (v : Variant) (h : Handler σ Out) (valid : Nat → List Nat → Verdict)
     (s : Src) (st : σ) : LoopRes σ Out :=
   loop v h valid (s.length + 1) s st 0
 
